@@ -361,6 +361,9 @@ def hostile(thorough):
     for il in (2 ** 32 - 1, 65537, 65536):
         out.append(('vhdx', 'vhdx size item of %d bytes' % il,
                     images.vhdx(item_len=il, length=big // 2)))
+    for io in (600 * KiB, 1024 * KiB, 0x7fffffff, 0xfffffff8, 65537):
+        out.append(('vhdx', 'vhdx size item at offset %d' % io,
+                    images.vhdx(item_off=io, length=big // 2)))
     for cnt in (2047, 2048, 65535):
         img = bytearray(images.vhdx(length=big // 2))
         mo = 320 * KiB
